@@ -43,15 +43,16 @@ type handle struct {
 }
 
 type world struct {
-	t      vkit.TB
-	lists  [2]*dt.List[int]
-	seq    [2][]*handle
-	hs     []*handle
-	log    []Op
-	cur    Op
-	nstruc int
-	nhand  int
-	cls    map[string]bool
+	t         vkit.TB
+	lists     [2]*dt.List[int]
+	seq       [2][]*handle
+	hs        []*handle
+	log       []Op
+	cur       Op
+	nstruc    int
+	nhand     int
+	emptyPops int
+	cls       map[string]bool
 
 	failing bool
 }
@@ -204,7 +205,14 @@ func swapValid(a, b *handle) bool {
 }
 
 // apply runs one op on the real lists and on the model.
+// apply runs one op under a watchdog: every step is sequential library
+// code, so a step that does not return (or allocates without bound) does
+// not terminate.
 func (w *world) apply(o Op) {
+	vkit.Watch(tList, "C16:list/"+o.Op+"/terminates", 30*time.Second, func() any { return append(append([]Op{}, w.log...), o) }, func() { w.applyStep(o) })
+}
+
+func (w *world) applyStep(o Op) {
 	w.cur = o
 	w.log = append(w.log, o)
 	defer func() {
@@ -246,6 +254,18 @@ func (w *world) apply(o Op) {
 				w.fail("pop from the empty list %d returned an Ok element (%d)", li, e.Value())
 			}
 			w.cls["pop-empty"] = true
+			// what an empty pop hands out is a fresh detached element: it
+			// joins the handle pool (Set makes it valid, then it can be
+			// appended), and it is nobody else's element
+			for _, h := range w.hs {
+				if h.e == e {
+					w.fail("pop from the empty list %d returned an element that was handed out before (value %v, Ok %v)", li, e.Value(), e.Ok())
+				}
+			}
+			if w.emptyPops < 3 {
+				w.emptyPops++
+				w.hs = append(w.hs, &handle{e: e, list: -1, ok: false})
+			}
 			break
 		}
 		h := w.seq[li][0]
